@@ -111,3 +111,11 @@ Theorem C15_newton_iterates_example :
   0 <= fR [(1, 1)] 0 (/ 2) 0.
 Proof. exact newton_iterates_left_example. Qed.
 Print Assumptions C15_newton_iterates_example.
+
+(* the start value of the iteration, max_i (-log(target/Ia_i)/La_i + To), is at or left of the root: at any g not later
+   than the time at which some one product alone meets the target, f(g) >= 0 (the max is attained by a product, so it
+   is such a g) - the premise C15_newton_iterates_left asks for *)
+Theorem C15_start_value_left : forall data To target g Ia La, physical_data data -> 0 < target ->
+  In (Ia, La) data -> 0 < Ia -> g <= - ln (target / Ia) / La + To -> 0 <= fR data To target g.
+Proof. exact start_value_left. Qed.
+Print Assumptions C15_start_value_left.
